@@ -258,3 +258,134 @@ fn l0_locals_metadata_size() {
     let classing = Classing::new(&[(Class(0), n[0]), (Class(1), n[1]), (Class(2), n[2])], Class(0), |_, _, _| Policy::Match(0));
     clause!(Locals::metadata_size(&classing) == (n[0] + n[1] + n[2]) * SLOT_BYTES, "C18: the slot metadata holds one cache-line slot per configured local slot");
 }
+
+// ---------------------------------------------------------------------------------------------
+// Slot words under interference (rely/guarantee environment `atomic::verif_contracts::senv`):
+// any number of other threads may replace any slot word by any well-formed word between any two
+// atomic operations of the call (symbolic budget of at most 2 replacements, then frozen).
+//   conservation : the frames this call removes from slot words (value in memory at the instant of
+//                  each write) minus the frames it writes back are exactly the frames it reports -
+//                  allocated by the caller or handed back for unreservation. A reservation that is
+//                  overwritten without being read atomically is lost (its frames can never be
+//                  allocated or accounted again: C03/C04).
+//   termination  : every retry loop ends once the environment is frozen (unwinding assertions, C21).
+// ---------------------------------------------------------------------------------------------
+use crate::atomic::verif_contracts::senv;
+static mut UNRES_FREE: usize = 0;
+static mut UNRES_N: usize = 0;
+
+fn with_locals_rg<R>(n: [usize; 3], f: impl FnOnce(&Locals, [usize; 3]) -> R) -> R {
+    with_locals(n, |l, n| {
+        let budget: usize = kani::any();
+        kani::assume(budget <= 2);
+        senv::start(l.buffer.as_ptr() as usize, SLOT_BYTES * 4, budget);
+        let r = f(l, n);
+        senv::stop();
+        r
+    })
+}
+macro_rules! srg_harness {
+    ($name:ident, $body:expr) => {
+        #[kani::proof]
+        #[kani::unwind(10)]
+        #[kani::solver(kissat)]
+        #[kani::stub(crate::atomic::Atom::load, crate::atomic::Atom::load_srg)]
+        #[kani::stub(crate::atomic::Atom::store, crate::atomic::Atom::store_srg)]
+        #[kani::stub(crate::atomic::Atom::swap, crate::atomic::Atom::swap_srg)]
+        #[kani::stub(crate::atomic::Atom::compare_exchange, crate::atomic::Atom::compare_exchange_srg)]
+        #[kani::stub(crate::atomic::Atom::try_update, crate::atomic::Atom::try_update_srg)]
+        fn $name() {
+            crate::verif_contracts::kpolicy::init(false);
+            $body
+        }
+    };
+}
+
+fn rg_drain(cfg: [usize; 3]) {
+    with_locals_rg(cfg, |l, _| {
+        unsafe {
+            UNRES_FREE = 0;
+            UNRES_N = 0;
+        }
+        l.drain(|_row, _class, free| unsafe {
+            UNRES_FREE += free;
+            UNRES_N += 1;
+        });
+        let (taken, given, taken_n) = unsafe { (senv::TAKEN, senv::GIVEN, senv::TAKEN_N) };
+        vcover!(taken_n > 0, "drain removes a reservation under interference");
+        clause!(given == 0, "drain writes only empty slots");
+        clause!(unsafe { UNRES_FREE } == taken && unsafe { UNRES_N } == taken_n, "C03/C04: drain hands every reservation it removes from a slot to unreserve, under every interleaving (no lost update)");
+    });
+}
+srg_harness!(rg_locals_drain, rg_drain([1, 2, 0]));
+
+fn rg_demote_any(cfg: [usize; 3]) {
+    with_locals_rg(cfg, |l, n| {
+        let class: u8 = kani::any();
+        kani::assume(class < 3);
+        let local: Option<usize> = if kani::any() { Some(kani::any()) } else { None };
+        kani::assume(local.is_none_or(|i| i < n[class as usize]));
+        let free: usize = kani::any();
+        kani::assume(free >= 1 && free <= TREE_FRAMES);
+        let tree = any_opt_tree_small();
+        let r = l.demote_any(Class(class), local, tree, free, kind_policy);
+        let (taken, given) = unsafe { (senv::TAKEN, senv::GIVEN) };
+        vcover!(r.is_some(), "a reservation is demoted under interference");
+        match r {
+            Some((_, old)) => {
+                let back = old.map_or(0, |o| o.free);
+                clause!(taken == given + free + back, "C03/C04: demote_any conserves frames under every interleaving: removed == written back + allocated + handed back for unreservation");
+            }
+            None => clause!(taken == given, "C03/C04: a failed demote_any keeps no frames, under every interleaving"),
+        }
+    });
+}
+srg_harness!(rg_locals_demote_any, rg_demote_any([1, 1, 0]));
+srg_harness!(rg_locals_demote_any_0_1_2, rg_demote_any([0, 1, 2]));
+
+fn rg_steal_any(cfg: [usize; 3]) {
+    with_locals_rg(cfg, |l, n| {
+        let class: u8 = kani::any();
+        kani::assume(class < 3);
+        let index: Option<usize> = if kani::any() { Some(kani::any()) } else { None };
+        kani::assume(index.is_none_or(|i| i < n[class as usize]));
+        let free: usize = kani::any();
+        kani::assume(free >= 1 && free <= TREE_FRAMES);
+        let tree = any_opt_tree_small();
+        let r = l.steal_any(Class(class), index, tree, free, kind_policy);
+        let (taken, given) = unsafe { (senv::TAKEN, senv::GIVEN) };
+        vcover!(r.is_some(), "frames are stolen under interference");
+        clause!(taken == given + if r.is_some() { free } else { 0 }, "C03/C04: steal_any takes exactly the requested frames from a slot, or nothing, under every interleaving");
+    });
+}
+srg_harness!(rg_locals_steal_any, rg_steal_any([1, 1, 0]));
+
+fn rg_get_put_swap() {
+    with_locals_rg([1, 2, 0], |l, n| {
+        let class: u8 = kani::any();
+        let idx: usize = kani::any();
+        kani::assume((class as usize) < 3 && idx < n[class as usize]);
+        let free: usize = kani::any();
+        kani::assume(free <= TREE_FRAMES);
+        let tree = any_opt_tree_small();
+        let op: u8 = kani::any();
+        if op == 0 {
+            let r = l.get(Class(class), idx, tree, free);
+            let (taken, given) = unsafe { (senv::TAKEN, senv::GIVEN) };
+            clause!(taken == given + if r.is_ok() { free } else { 0 }, "C03/C04: Locals::get takes exactly the requested frames or nothing, under every interleaving");
+        } else if op == 1 {
+            let t = TreeId(kani::any::<usize>() % 4);
+            // the caller frees frames it holds: the rely keeps counter + held frames within the tree
+            let ok = l.put(Class(class), idx, t, 0);
+            let (taken, given) = unsafe { (senv::TAKEN, senv::GIVEN) };
+            clause!(taken == given || !ok, "C03/C04: Locals::put of nothing changes no counter");
+        } else {
+            let t: usize = kani::any();
+            kani::assume(t < 4);
+            let r = l.swap(Class(class), idx, TreeId(t), free);
+            let (taken, given) = unsafe { (senv::TAKEN, senv::GIVEN) };
+            clause!(given == free && taken == r.map_or(0, |o| o.free), "C03/C04: Locals::swap hands back exactly the reservation it replaced, under every interleaving");
+        }
+    });
+}
+srg_harness!(rg_locals_get_put_swap, rg_get_put_swap());
